@@ -16,7 +16,7 @@ Lemma dial_shape_tcp_sound listen a q :
                     parse TTcp a = Some (ho, port, Some q).
 Proof.
   unfold dial_shape. destruct (last a (Other 0)) eqn:El; try discriminate.
-  destruct (existsb (maddr_eqb a) listen); [discriminate|].
+  destruct (existsb (maddr_eqb a) listen || existsb (maddr_eqb (strip_p2p a)) listen); [discriminate|].
   destruct a as [|h rest]; [discriminate|].
   destruct (is_host h) eqn:Eh; [|discriminate].
   destruct rest as [|x1 rest]; [discriminate|]. destruct x1; try discriminate.
@@ -34,7 +34,7 @@ Lemma dial_shape_ws_sound listen a q :
                       parse TWs a = Some (ho, port, Some q).
 Proof.
   unfold dial_shape. destruct (last a (Other 0)) eqn:El; try discriminate.
-  destruct (existsb (maddr_eqb a) listen); [discriminate|].
+  destruct (existsb (maddr_eqb a) listen || existsb (maddr_eqb (strip_p2p a)) listen); [discriminate|].
   destruct a as [|h rest]; [discriminate|].
   destruct (is_host h) eqn:Eh; [|discriminate].
   destruct rest as [|x1 rest]; [discriminate|]. destruct x1; try discriminate.
@@ -69,6 +69,12 @@ Qed.
 Lemma dial_shape_self listen a q :
   last a (Other 0) = P2p q -> existsb (maddr_eqb a) listen = true -> dial_shape listen a = SvRefuse RET_SELF'.
 Proof. intros H1 H2. unfold dial_shape. now rewrite H1, H2. Qed.
+
+(* ... and so is a registered listen address under another peer id (fix F-C10a) *)
+Lemma dial_shape_self_other_id listen a q :
+  last a (Other 0) = P2p q -> existsb (maddr_eqb (strip_p2p a)) listen = true ->
+  dial_shape listen a = SvRefuse RET_SELF'.
+Proof. intros H1 H2. unfold dial_shape. rewrite H1, H2, orb_true_r. reflexivity. Qed.
 
 (* The check as it was before the `fix:` commit: only the first three components were looked at. *)
 Definition dial_shape_unfixed (listen : list maddr) (a : maddr) : shape_verdict :=
